@@ -47,7 +47,9 @@ trap cleanup EXIT
 die() { echo "BUILD-ERROR: $*" >&2; exit 2; }
 
 if [ $need_X = 1 ]; then
-  ( cd $REPO && go build -o $OUT/knut . ) >$OUT/buildX.log 2>&1 || { cat $OUT/buildX.log >&2; die "engine X build failed"; }
+  # built from a copy: with -mod=mod the go command may rewrite go.mod, and /repo is left as found
+  rsync -a --exclude .git $REPO/ $S/knutx/ || die "copy failed"
+  ( cd $S/knutx && go build -o $OUT/knut . ) >$OUT/buildX.log 2>&1 || { cat $OUT/buildX.log >&2; die "engine X build failed"; }
 fi
 
 if [ $need_S = 1 ] || [ $need_R = 1 ]; then
